@@ -260,7 +260,7 @@ def _make_leaf(ctx, node: Node, circuit: DeclarativeCircuit, relation, built: Bu
     if k[0] == 'R':
         # Wait whose duration is looked up in a DurationRegistry (value symbolic, may be changed later by the history)
         key = 'key_' + node.label().replace('.', '_')
-        node.dur = ctx.real('v_' + node.label().replace('.', '_'), lo=0, reuse=True)
+        node.dur = ctx.real(('v_' + node.label().replace('.', '_')) if not built.dur_pool else _dur_name(node, built), lo=0, reuse=True)
         built.registry.set_registry_at(key, node.dur)
         built.reg_keys.append(key)
         built.durs[node.label()] = node.dur
